@@ -23,6 +23,8 @@ func (s Step) String() string {
 		return "del(" + s.Key + ")"
 	case "status":
 		return fmt.Sprintf("WriteHeader(%d)", s.Code)
+	case "panic":
+		return "panic"
 	default:
 		return fmt.Sprintf("Write(%d)", s.N)
 	}
@@ -52,6 +54,8 @@ func (p *Prog) Exec(w http.ResponseWriter) {
 			w.WriteHeader(s.Code)
 		case "write":
 			w.Write(make([]byte, s.N))
+		case "panic":
+			panic("program panics")
 		}
 	}
 }
